@@ -450,8 +450,10 @@ func (g *Gen) load(st *State, a string, t types.Type) Term {
 	}
 	if arr, ok := t.Underlying().(*types.Array); ok {
 		if _, leaf := isLeafArray(t); !leaf {
+			// an array of structs read as a whole value (a large configuration struct passed by value): its
+			// content is not modelled; the load yields an unconstrained value (an over-approximation)
 			_ = arr
-			g.fail("whole load of non-leaf array %s", t)
+			return g.sc.Fresh("bigarr", g.sortOf(t))
 		}
 	}
 	return g.loadLeaf(st, a, t)
